@@ -713,7 +713,10 @@ def jnp_size(I, x):
 def install(I):
     e = I.ext
     pi = SReal(z3.Real("pi"))
-    I.ext_consts = {"jax.numpy.pi": pi, "numpy.pi": pi, "math.pi": pi}
+    # +infinity: an uninterpreted real constant (floats range over the extended reals, so `x > -inf` is NOT valid for every
+    # float x; nothing is assumed about it - whatever is proved holds however large it is)
+    inf = SReal(z3.Real("float_inf"))
+    I.ext_consts = {"jax.numpy.pi": pi, "numpy.pi": pi, "math.pi": pi, "jax.numpy.inf": inf, "numpy.inf": inf, "math.inf": inf}
     e["jax.numpy.size"] = jnp_size
     e["penzai.pz.pytree_dataclass"] = pytree_dataclass
     for p in ("jax.numpy.where", "jax.lax.select"):
